@@ -40,7 +40,7 @@ ASSUMPTIONS = [
     'protocol 1.0 descriptors are only run through sertypes.parse and the id -> bytes checks '
     '(the protocol document in the tree describes the 2.0+ encoding)',
 ]
-MIN_EVALS = {'quick': 4000, 'thorough': 70000}
+MIN_EVALS = {'quick': 4000, 'thorough': 40000}
 
 _S: dict = {}
 SC = lambda n: ('scalar', n)   # noqa: E731
@@ -625,7 +625,7 @@ def _run(rec, case, memo):
 
 def shard(rec, idx, nshards, seed, tier):
     preload()
-    n = 300 if tier == 'quick' else 7000
+    n = 300 if tier == 'quick' else 4000
     memo: dict = {}
     core.run_given(_strategy(), lambda c: _run(rec, c, memo), seed=seed * 1000 + idx, max_examples=n)
     rec.extra['distinct_descriptor_ids_seen'] = len([k for k in memo if k[0] == 'block'])
